@@ -69,8 +69,8 @@ Apply(k, w, o) ==
                 {AuthStep(w, AuthWindow(w), <<o.op, o.arg>>).text}
           [] OTHER ->
                 LET ab == AbsOf(ctx, P.path)
-                    X2 == ApplyPathOp(ab, Segs(P.path), PathOpOf(o))
-                IN  UNION {{Embed(ctx, c) : c \in AdmissibleStep(ctx, HasLeadDot(P.path), ab, A)} : A \in LoneAlts(X2, LoneOk(o.op))}
+                IN  UNION {{Embed(ctx, c) : c \in AdmissibleStep(ctx, HasLeadDot(P.path), ab, A)}
+                           : A \in AltsOf(ab, Segs(P.path), PathOpOf(o))}
 
 \* C05: the intended records of a setter re-parse to themselves and are valid (sufficiency)
 Records(w, o) ==
